@@ -344,7 +344,8 @@ Lemma fa_resume_post ffuel mk : forall fuel r r' res, fa_resume fuel ffuel mk r 
   Forall (fun s => FullSite s /\ (mk = true -> start s = 0)) (fa_resume_sites fuel ffuel mk r) /\
   BufFits r' /\
   (res = RsErr FaBufferLimit -> st r' = FIncomplete /\ cap r' <= length (buf r')) /\
-  res <> RsOk false /\ (forall l b, res <> RsErr (FaInvalidStart l b)).
+  res <> RsOk false /\ (forall l b, res <> RsErr (FaInvalidStart l b)) /\
+  (forall k, res = RsErr (FaIo k) -> st r' = FFinished).
 Proof.
   induction fuel as [|f IH]; intros r r' res H Hf Hfull Hst; cbn [fa_resume fa_resume_sites] in *.
   { inversion H; subst. splits; auto; discriminate. }
@@ -359,12 +360,14 @@ Proof.
     destruct g as [|e|s].
     + destruct (fa_fill ffuel r1) as [r2 fr] eqn:E2. pose proof (fa_fill_fits _ _ _ _ E2 Hf1) as Hf2.
       destruct (fa_fill_run false _ _ _ _ E2) as (_ & _ & Hst2 & _).
-      destruct fr as [n|k|]; try (inversion H; subst; splits; auto; try discriminate; repeat constructor; apply Hsite).
+      destruct fr as [n|k|];
+        [|inversion H; subst; splits; try discriminate; [repeat constructor; apply Hsite|exact Hf2|reflexivity]
+         |inversion H; subst; splits; auto; try discriminate; repeat constructor; apply Hsite].
       destruct (fa_search r2) as [r3 sr] eqn:E3. pose proof (fa_search_fits _ _ _ E3 Hf2) as Hf3.
       destruct (fa_search_facts _ _ _ E3) as (_ & _ & _ & _ & _ & _ & Hinc & _).
       destruct sr as [[|]|s]; try (inversion H; subst; splits; auto; try discriminate; repeat constructor; apply Hsite).
       destruct (Hinc eq_refl) as [Hst3 Hfull3].
-      destruct (IH _ _ _ H Hf3 Hfull3 Hst3) as (S & F & L & N & N2). splits; auto.
+      destruct (IH _ _ _ H Hf3 Hfull3 Hst3) as (S & F & L & N & N2 & N3). splits; auto.
       cbn [app]. constructor; [exact Hsite|exact S].
     + inversion H; subst. rewrite (Hgerr e eq_refl). splits; auto; try discriminate.
       * repeat constructor; apply Hsite.
@@ -375,7 +378,9 @@ Proof.
     cbn [app].
     destruct g as [|e|s]; [|exfalso; apply (Hne e); reflexivity|inversion H; subst; splits; auto; discriminate].
     destruct (fa_fill ffuel r1) as [r2 fr] eqn:E2. pose proof (fa_fill_fits _ _ _ _ E2 Hf1) as Hf2.
-    destruct fr as [n|k|]; try (inversion H; subst; splits; auto; discriminate).
+    destruct fr as [n|k|];
+      [|inversion H; subst; splits; try discriminate; [constructor|exact Hf2|reflexivity]
+       |inversion H; subst; splits; auto; discriminate].
     destruct (fa_search r2) as [r3 sr] eqn:E3. pose proof (fa_search_fits _ _ _ E3 Hf2) as Hf3.
     destruct (fa_search_facts _ _ _ E3) as (_ & _ & _ & _ & _ & _ & Hinc & _).
     destruct sr as [[|]|s]; try (inversion H; subst; splits; auto; discriminate).
@@ -418,9 +423,11 @@ Proof.
   destruct (b =? GT); inversion H; subst; exact Hf1.
 Qed.
 
-(** outcomes after which the next call finds the reader in a regular state *)
+(** outcomes after which the next call finds the reader in a regular state:
+    everything except fuel exhaustion and panics (I/O errors are final or leave
+    the reader [New], so they are regular too) *)
 Definition fa_regular_out (o : fa_out) : Prop :=
-  match o with OErr (FaIo _) | OFuel | OPanic _ => False | _ => True end.
+  match o with OFuel | OPanic _ => False | _ => True end.
 
 Lemma fa_next_tail_post fuel ffuel r r' o : fa_next_tail fuel ffuel r = (r', o) ->
   BufFits r -> FullInc r ->
@@ -441,16 +448,17 @@ Proof.
   2:{ inversion H; subst. splits; auto. }
   assert (Hst1 : st r1 = FIncomplete) by (destruct (st r1); try discriminate; reflexivity).
   destruct (fa_resume fuel ffuel true r1) as [r2 rr] eqn:E2.
-  destruct (fa_resume_post _ _ _ _ _ _ E2 Hf1 (Hfull1 Hst1) Hst1) as (S & F & L & N & N2).
+  destruct (fa_resume_post _ _ _ _ _ _ E2 Hf1 (Hfull1 Hst1) Hst1) as (S & F & L & N & N2 & N3).
   assert (S' : Forall GrowSite (fa_resume_sites fuel ffuel true r1)).
   { eapply Forall_impl; [|exact S]. intros s [Hfs Hs]. split; [apply Hs; reflexivity|exact Hfs]. }
   destruct rr as [[|]|e|s|]; inversion H; subst; splits; auto; try (intros []); try congruence.
   - destruct (fa_state_eqb (st r2) FFinished) eqn:E; exact F.
   - intros Hs. destruct (fa_state_eqb (st r2) FFinished) eqn:E; [|discriminate].
     rewrite Hs in E. discriminate.
-  - cbn [fa_regular_out]. destruct e as [k|l0 b0|]; [intros []| |].
+  - destruct e as [k|l0 b0|].
+    + intros Hs. rewrite (N3 k eq_refl) in Hs. discriminate.
     + exfalso. apply (N2 l0 b0). reflexivity.
-    + intros _ _. apply (L eq_refl).
+    + intros _. apply (L eq_refl).
 Qed.
 
 Lemma FullInc_not_incomplete r : st r <> FIncomplete -> FullInc r.
@@ -476,7 +484,7 @@ Proof.
 Qed.
 
 Definition lres_regular (x : lres) : Prop :=
-  match x with LErr (FaIo _) | LFuel | LPanic _ => False | _ => True end.
+  match x with LFuel | LPanic _ => False | _ => True end.
 
 Definition SetSite (n : option nat) (is_new : bool) (s : fa) : Prop :=
   FullSite s /\ (is_new = true -> n = None -> start s = 0).
@@ -513,7 +521,7 @@ Proof.
   destruct (fa_state_eqb (st r) FIncomplete) eqn:Einc.
   - assert (Hst : st r = FIncomplete) by (destruct (st r); try discriminate; reflexivity).
     destruct (fa_resume rfuel ffuel is_new r) as [r1 rr] eqn:E1.
-    destruct (fa_resume_post _ _ _ _ _ _ E1 Hf (Hfull Hst) Hst) as (S & F & L & N & N2).
+    destruct (fa_resume_post _ _ _ _ _ _ E1 Hf (Hfull Hst) Hst) as (S & F & L & N & N2 & N3).
     assert (S' : Forall (SetSite n is_new) (fa_resume_sites rfuel ffuel is_new r)).
     { eapply Forall_impl; [|exact S]. intros s [Hfs Hs]. split; [exact Hfs|]. intros Hn _. apply Hs; exact Hn. }
     destruct rr as [[|]|e|s|].
@@ -523,7 +531,8 @@ Proof.
         destruct (st r1); try discriminate E. discriminate.
       * splits; auto. apply Forall_app. split; assumption.
     + congruence.
-    + inversion H; subst. rewrite app_nil_r. splits; auto. destruct e as [k|l0 b0|]; [intros []| |].
+    + inversion H; subst. rewrite app_nil_r. splits; auto. destruct e as [k|l0 b0|].
+      * intros _ Hs. rewrite (N3 k eq_refl) in Hs. discriminate.
       * exfalso. apply (N2 l0 b0). reflexivity.
       * intros _ _. apply (L eq_refl).
     + inversion H; subst. rewrite app_nil_r. splits; auto. intros [].
@@ -580,11 +589,12 @@ Proof.
   destruct res as [k|]; [inversion H; subst; split; [exact Hf|exact Hfull]|].
   match type of H with (let '(r1, fr) := fa_fill ffuel ?R in _) = _ => set (r0 := R) in * end.
   destruct (fa_fill ffuel r0) as [r1 fr] eqn:E1.
-  assert (r1 = r') by (destruct fr; inversion H; reflexivity). subst r1.
   assert (Hf0 : BufFits r0) by (unfold BufFits, r0; fa_simpl; cbn [length]; lia).
-  split; [apply (fa_fill_fits _ _ _ _ E1 Hf0)|].
+  pose proof (fa_fill_fits _ _ _ _ E1 Hf0) as Hf1.
   destruct (fa_fill_run false _ _ _ _ E1) as (_ & _ & Hst & _).
-  apply FullInc_not_incomplete. rewrite Hst. unfold r0. fa_simpl. discriminate.
+  assert (Hn1 : st r1 <> FIncomplete) by (rewrite Hst; unfold r0; fa_simpl; discriminate).
+  destruct fr; inversion H; subst; (split; [exact Hf1|apply FullInc_not_incomplete]); try exact Hn1.
+  fa_simpl. discriminate.
 Qed.
 
 Lemma fa_set_policy_post r p : BufFits r -> FullInc r -> BufFits (fa_set_policy r p) /\ FullInc (fa_set_policy r p).
@@ -610,7 +620,7 @@ Fixpoint fa_resume_g (fuel ffuel : nat) (mk_room : bool) (r : fa) : fa * rres_b 
       | GOk =>
           let '(r2, fr) := fa_fill ffuel r1 in
           match fr with
-          | FillErr k => (r2, RsErr (FaIo k), gs)
+          | FillErr k => (set_st r2 FFinished, RsErr (FaIo k), gs)
           | FillFuel => (r2, RsFuel, gs)
           | FillOk _ =>
               let '(r3, sr) := fa_search r2 in
@@ -688,7 +698,7 @@ Proof.
 Qed.
 
 (** the two state conditions hold initially and are kept by every operation
-    (the second one unless the call ended in an I/O error, fuel exhaustion or panic) *)
+    (the second one unless the call ended in fuel exhaustion or a panic) *)
 Theorem fa_invariants_preserved :
   (forall c s p, BufFits (fa_new c s p) /\ FullInc (fa_new c s p)) /\
   (forall fuel ffuel r r' o, fa_next fuel ffuel r = (r', o) -> BufFits r -> FullInc r ->
@@ -707,19 +717,22 @@ Proof.
   - intros r p. apply fa_set_policy_post.
 Qed.
 
-(** Without [FullInc] the "only when needed" clause is FALSE of the model (and
-    of the code): after an I/O error raised inside [resume_incomplete_search]
-    the reader is left in state [Incomplete] with a buffer that is no longer
-    full (the capacity has just been enlarged); the next call re-enters the
-    loop and consults the policy again although the buffer has room.
-    Input ">a\nACGT\n", capacity 3, the second refill fails. *)
-Lemma fa_grow_after_io_error_refuted :
+(** [FullInc] is kept by every call except one that runs out of fuel (or
+    panics, which sane states never do: SaneP.v).  Since an I/O error while
+    refilling is final, the former counter-example (a second consultation of the
+    policy after an I/O error inside [resume_incomplete_search]) is gone.  The
+    fuel exception is real: refill fuel 0 in the second call stops the loop
+    right after it made room, leaving [Incomplete] with a buffer that has room. *)
+Lemma fa_FullInc_lost_on_fuel_exhaustion :
   exists r, BufFits r /\ FullInc r /\
     let r1 := fst (fa_next 20 20 r) in
-    snd (fa_next 20 20 r) = OErr (FaIo 5) /\ st r1 = FIncomplete /\
-    map (fun s => (start s, length (buf s), cap s)) (fa_next_sites 20 20 r1) = [(0, 3, 6); (0, 6, 6)].
+    (exists rc, snd (fa_next 20 20 r) = ORec rc) /\ FullInc r1 /\
+    snd (fa_next 20 0 r1) = OFuel /\
+    let r2 := fst (fa_next 20 0 r1) in
+    st r2 = FIncomplete /\ length (buf r2) < cap r2.
 Proof.
-  exists (fa_new 3 (mkSource [62;97;10;65;67;71;84;10] 0 [RDeliver 9; RFailI 5] []) (pol_plus 3 100)).
+  exists (fa_new 7 (mkSource [62;97;10;65;67;10;62;98;10;71;71;71;71;10] 0 [] []) pol_std).
   split; [unfold BufFits; cbn; lia|]. split; [intros H; discriminate H|].
-  vm_compute. auto.
+  cbv zeta. split; [vm_compute; eexists; reflexivity|]. split; [intros H; vm_compute in H; discriminate H|].
+  vm_compute. repeat split. lia.
 Qed.
